@@ -7,10 +7,12 @@ S=$(mktemp -d /tmp/vp-scratch.XXXXXX)
 trap 'rm -rf "$S"' EXIT
 git -C /repo archive HEAD | tar -x -C "$S" --one-top-level=repo
 (cd "$S/repo" && patch -p1 -s < "$PATCH")
-mkdir -p "$S/build" "$S/ev" "$S/replays"
+mkdir -p "$S/build" "$S/ev" "$S/replays" "$S/verif"
+# a frozen copy of the machinery, so that edits under /verif while this runs cannot mix two versions of it
+cp -r /verif/check /verif/mk /verif/sim /verif/known_findings.txt "$S/verif/"
 for id in "$@"; do
   echo "=== $id against $(basename "$PATCH")"
-  VERIF_REPO="$S/repo" VERIF_BUILD="$S/build" VERIF_EVIDENCE="$S/ev" VERIF_REPLAYS="$S/replays" /verif/check "$id" --quick > "$S/out.txt" 2>&1 || true
+  VERIF_REPO="$S/repo" VERIF_BUILD="$S/build" VERIF_EVIDENCE="$S/ev" VERIF_REPLAYS="$S/replays" "$S/verif/check" "$id" --quick > "$S/out.txt" 2>&1 || true
   grep -E "^VIOLATION|^KNOWN|^---- |^     [A-Za-z]" "$S/out.txt" | cut -c1-300 | head -${LINES_MAX:-12} || true
   grep -E "^C[0-9]+ quick|HARNESS" "$S/out.txt" | cut -c1-300 | head -3 || true
   echo "exit=$?"
